@@ -58,7 +58,9 @@ Record jecase := { je_v : pval; je_tree : option jtree; je_back : option pval; j
 (* failing clauses:
    1 model json_encode <> implementation (tree of its output / false)
    2 model json_decode(default) of that tree <> implementation      3 same, assoc mode
-   4 implementation's output <> reference encoding of the value     [encoder faithful]
+   4 the reference reader does not read the implementation's output back as the value, or the
+     implementation refuses (false) an encodable value / encodes a value that has no encoding
+                                                                    [encoder faithful]
    5 default-mode decode of it <> the value                         [decoder inverts encoder]
    6 assoc-mode decode of it <> the value *)
 Definition null_as_none (o : option pval) : option pval :=
@@ -66,7 +68,11 @@ Definition null_as_none (o : option pval) : option pval :=
 Definition check_jenc (c : jecase) : list nat :=
   let ib := fun _ : Z => 0 in
   (if ojtree_eqb (json_encode ib (je_v c)) (je_tree c) then [] else [1%nat]) ++
-  (if ojtree_eqb (spec_to_json ib (je_v c)) (je_tree c) then [] else [4%nat]) ++
+  (match je_tree c with
+   | None => if encodable (je_v c) then [4%nat] else []
+   | Some t => if encodable (je_v c) && pval_eqb (spec_of_json false t) (view false (je_v c))
+                  && pval_eqb (spec_of_json true t) (view true (je_v c)) then [] else [4%nat]
+   end) ++
   match je_tree c with
   | None => []
   | Some t =>
